@@ -30,10 +30,12 @@
     M9  THE ROOT COMMITS TO THE CONTENT: equal root hashes => the same map for every key, unless the
         hash function collides (node encodings are injective: RLP, hex-prefix, embedded vs hashed
         references); with M6: equal roots <=> equal content up to collisions;
+    M10 COMMIT AND REOPEN: the node set a commit writes, read from the root hash by fetch-decode-walk,
+        returns for every key exactly what the in-memory trie holds (up to collisions);
     J4-J6  the per-block commit with deleteEmptyObjects.
   NOT proved (decided per run by the engine, three ways: in-tree code = Lean model = go-ethereum
-  v1.8.27): commit/reopen through the node database (the model keeps the tree in memory), the
-  secure trie's key hashing, the account/storage layering of the state root. The hash itself
+  v1.8.27): equality with the reference implementation's root, the trie database's caching and
+  garbage collection, the secure trie's key hashing, the account/storage layering of the state root. The hash itself
   (Keccak-256) is computed by the driver and is a parameter of every theorem (M6, M7 hold for any
   hash function; M7 up to collisions). The theorems are about Model/Trie.lean and
   Model/TrieProof.lean - the definitions the compiled driver runs against the Go code on every op.
@@ -46,6 +48,7 @@ import AnnVerif.Lemmas.TrieProof
 import AnnVerif.Lemmas.TrieSmall
 import AnnVerif.Lemmas.TrieBound
 import AnnVerif.Lemmas.TrieCommit
+import AnnVerif.Lemmas.TrieReopen
 namespace AnnVerif.C11
 open AnnVerif AnnVerif.StateJournal
 
@@ -587,6 +590,23 @@ theorem equal_roots_equal_content (H : Bytes → Bytes) (Hlen : ∀ x, (H x).len
     show Trie.lookup (build ws1) q = Trie.lookup (build ws2) q
     rw [h]
   · exact Or.inr h
+
+/-- M10: COMMIT AND REOPEN. The node database a commit writes (the root node and every node stored
+    by hash) read from the root hash - fetch by hash, decode, walk through embedded nodes, fetch the
+    next hash - returns for EVERY key exactly what the in-memory trie holds, or the hash collides -/
+theorem reopen_reproduces_the_content (H : Bytes → Bytes) (Hlen : ∀ x, (H x).length = 32) (ws : List (Bytes × Bytes))
+    (hk : ∀ w ∈ ws, w.1.length ≤ 2 ^ 30) (hv : ∀ w ∈ ws, w.2.length ≤ 2 ^ 32)
+    (q : Bytes) (hne : (build ws).isEmpty = false) :
+    Trie.verify H (Trie.commitNodes H (build ws)) ((Trie.keybytesToHex q).length + 1)
+      (Trie.rootHash H (build ws)) (Trie.keybytesToHex q) = some (Trie.lookup (build ws) q) ∨ Trie.Coll H := by
+  obtain ⟨inv, g⟩ := trie_refines_map ws
+  have hl : Trie.lookup (build ws) q = Trie.getN (build ws) (Trie.keybytesToHex q) := lookup_eq_getN inv q
+  have hnv : Trie.getN (build ws) (Trie.keybytesToHex q) ≠ some [] := by
+    rw [← hl]; unfold build; rw [g q]
+    exact map_never_reads_empty ws _ q (by simp)
+  rw [hl]
+  exact Trie.reopen_reads_content H Hlen (build ws) _ inv.1 hne (termKey_keybytesToHex q)
+    (built_tries_are_small H Hlen ws hk hv) hnv
 
 /-- not vacuous: a trie with nodes stored by hash (values of 40 and 33 bytes) meets the hypotheses,
     its proofs have several elements, and they verify for a present and for an absent key (a toy
